@@ -116,9 +116,9 @@ P["C14"] = {
     "verus": [{"unit": "alloc", "functions": ALLOC_CORE + LAYOUT}],
     "kani": [],
     "explanation": "Every clause of the statement is a postcondition over the set of free pages (free_set = {p | st().cov(0,p)}) of the REAL bodies of bitmap.rs, buddy_allocator.rs, region.rs and allocate_helper_retry, extracted from /repo on every run and verified by Verus for all sizes, orders and states: blocks handed out lie inside the region and were free (alloc/alloc_inner), refusal only when nothing of that order or larger is free (with lemma_bridge: no aligned free block exists), free makes exactly the block's pages free and merges with free buddies (I2), record_alloc marks exactly the block or refuses leaving the state unchanged, I1 (no page free at two orders) and I2 (buddies always merged) are established by new() and preserved; the region tracker never reports full a region holding a suitable free block (TRK) - established by Allocators::new, preserved by allocate_helper_retry.",
-    "not_decided": "the two tracker-update statements inside TransactionalMemory::free_helper (behind a Mutex); serialisation round trip (to_vec/from_bytes are external_body); alloc_lowest, resize, resize_to (see assumptions)",
+    "not_decided": "the two tracker-update statements inside TransactionalMemory::free_helper (behind a Mutex); serialisation round trip (to_vec/from_bytes are external_body); the bodies of alloc_lowest and of the resize family (see assumptions)",
     "assumptions": ["BuddyAllocator::alloc_lowest is ASSUMED to satisfy alloc's contract (external_body) - not yet verified",
-                    "BuddyAllocator::resize / BtreeBitmap::resize / RegionTracker::resize / Allocators::resize_to are not yet under contract"],
+                    "BuddyAllocator::resize, BuddyAllocator::highest_free_order, BtreeBitmap::resize and RegionTracker::resize carry ASSUMED contracts (external_body: iterator adapters / iter_mut loops Verus cannot read); Allocators::resize_to is VERIFIED against them: it preserves wf and TRK, gives every region the size the new layout says, builds new regions for the capacity of a full region, and leaves unchanged regions untouched"],
 }
 P["C20"] = {
     "level": "proof",
